@@ -301,6 +301,11 @@ int choose(int n, const char*) {
   return nextChoice(n, 2);
 }
 
+int g_eintrBudget = 0;
+thread_local bool t_noFaults = false;
+void setInterruptBudget(int n) { g_eintrBudget = n; }
+void exemptThisThreadFromFaults() { t_noFaults = true; }
+
 void yield(const char* label) {
   if (!g_active || t_self < 0) return;
   point(OP_STEP, label);
@@ -602,6 +607,13 @@ typedef ssize_t (*read_fn)(int, void*, size_t);
 ssize_t read(int fd, void* buf, size_t n) {
   REAL(f, read_fn, "read");
   if (!g_active || t_self < 0 || !isBlockingStream(fd)) return f(fd, buf, n);
+  // fault axis (off unless the body asks for it): a blocking read of the code under test is interrupted by a signal before any
+  // data arrived - at most `budget` times per execution, at any read
+  if (g_eintrBudget > 0 && !t_noFaults && nextChoice(2, 2) == 1) {
+    g_eintrBudget--;
+    errno = EINTR;
+    return -1;
+  }
   if (!waitReadable(fd, "read")) {
     errno = EAGAIN;
     return -1;
